@@ -23,6 +23,7 @@ type Eng struct {
 	Optim       string `json:"optim,omitempty"`       // default | none | all | sort | merge | prop | comma list
 	NoFallback  bool   `json:"no_fallback,omitempty"`
 	Distributed bool   `json:"distributed,omitempty"`
+	Grow        bool   `json:"grow,omitempty"`  // distributed: the last remote engine joins the endpoints after the engine was constructed
 	Debug       bool   `json:"debug,omitempty"` // Opts.DebugWriter set (the plan of every query is explained to it)
 }
 
